@@ -21,7 +21,7 @@ def gauss_A(m, positions):
     return A
 
 
-def A_palette(m, n, seed=0, seeded=True):
+def A_palette(m, n, seed=0, seeded=True, zeros=False):
     """list of (name, A). Fixed: ascending spread + one non-monotone order; seeded: entries uniform on the 1/64 grid."""
     npos = 2 * m + 1
     out = []
@@ -38,6 +38,12 @@ def A_palette(m, n, seed=0, seeded=True):
         # more sources than grid positions: half-grid positions as well
         pos = list(np.linspace(0, npos - 1, n))
         out.append(("asc", gauss_A(m, pos)))
+    if zeros and n >= 2 and m >= 2:
+        # exact zeros: every source is invisible to the receptors it excites least
+        Z = out[0][1].copy()
+        Z[Z < 1.0] = 0.0
+        if np.linalg.matrix_rank(Z) == min(m, n) and np.all(Z.sum(0) > 0) and np.all(Z.sum(1) > 0):
+            out.append(("zeros", Z))
     if seeded:
         rng = np.random.default_rng(1000003 * (seed + 1) + 97 * m + n)
         for _ in range(50):
@@ -114,7 +120,7 @@ def lattice(lo, hi, levels):
     return np.array(pts)
 
 
-def systems(shapes, seed=0, order=2, bounds=None, Ks=None, baselines=None, seeded=True, cross=False):
+def systems(shapes, seed=0, order=2, bounds=None, Ks=None, baselines=None, seeded=True, cross=False, zeros=False):
     """enumerate system specs: shape x A palette fully crossed; (bounds, K, baseline) with a deviation bound
     `order` from the first option of each menu (cross=True: full cross product).
     yields (names, A, (lb, ub), K, baseline)"""
@@ -131,7 +137,7 @@ def systems(shapes, seed=0, order=2, bounds=None, Ks=None, baselines=None, seede
         if baselines is not None:
             sm = [s for s in sm if s[0] in baselines]
             sm.sort(key=lambda s: baselines.index(s[0]))
-        for aname, A in A_palette(m, n, seed=seed, seeded=seeded):
+        for aname, A in A_palette(m, n, seed=seed, seeded=seeded, zeros=zeros):
             menus = [bm, km, sm]
             if cross:
                 combos = itertools.product(*[range(len(x)) for x in menus])
